@@ -238,6 +238,38 @@ fn compound_case(out: &mut Out, op: &str, var_ty: &str, text: &str) {
     }
 }
 
+/// The type the const evaluator gives the same expression when its names are consts (`const K = E`): it must be the
+/// documented one too — in particular `**` is classified by the *syntax* of the exponent, not by a const's value.
+fn ctype_case(out: &mut Out, text: &str) {
+    if text.contains('(') && !text.contains("()") {
+        // parentheses are not allowed in const initializers (phase 1); calls / fields are not const either
+    }
+    let src = format!("const a: int = 3\nconst b: int = 2\nconst x: float = 2.5\nconst y: float = 0.5\nconst K = {text}\n\ndef main() -> None:\n    pass\n");
+    let r = catch(|| -> Result<(String, String), String> {
+        let prog = parse(&src)?;
+        let value: Option<Spanned<Expr>> = prog.declarations.iter().find_map(|d| match &d.node {
+            Declaration::Const(c) if c.name == "K" => Some(c.value.clone()),
+            _ => None,
+        });
+        let value = value.ok_or("no value")?;
+        let e = enc(&value).ok_or("outside-fragment")?;
+        let mut tc = TypeChecker::new();
+        let verdict = match tc.check_program(&prog) {
+            Ok(()) => tc.type_info().expr_type(value.span).map(rt).unwrap_or_else(|| "untyped".into()),
+            Err(errs) => {
+                let m = &errs[0].message;
+                if m.contains("not allowed inside const") || m.contains("Parenthes") { "not-const".to_string() } else { format!("err:{}", m.replace(' ', "_").chars().take(60).collect::<String>()) }
+            }
+        };
+        Ok((e, verdict))
+    });
+    if let Ok(Ok((e, verdict))) = r {
+        if verdict != "not-const" {
+            out.case(&format!("c07 ctype {e}"), &verdict);
+        }
+    }
+}
+
 /// The plan the emitter uses for the desugared `v = v op e`, for a local variable and for a `mut` parameter.
 fn cplan_case(out: &mut Out, op: &str, var_ty: &str, target: &str, text: &str) {
     let init = if var_ty == "int" { "1" } else { "1.5" };
@@ -362,6 +394,9 @@ pub fn run(out: &mut Out, tier: &str, seed: u64) {
             for r in &at {
                 let text = format!("{l} {sym} {r}");
                 types_case(out, &text);
+                if !text.contains('(') && !text.contains('.') || text.contains("2.5") && !text.contains('(') && !text.contains("o.") {
+                    ctype_case(out, &text);
+                }
                 for annot in ["int", "float"] {
                     bind_case(out, &text, "let", annot);
                     bind_case(out, &text, "ret", annot);
